@@ -110,7 +110,41 @@ func freshZeroBytes(t *tf.Term) (int64, bool) {
 		}
 		return int64(len(t.Args)), true
 	}
+	// a local [n]byte array that the function itself never stores to (make([]byte, n) with constant n)
+	if t.K == tf.KAlloc && t.Type != nil {
+		if pt, ok := t.Type.(*types.Pointer); ok {
+			if arr, ok := types.Unalias(pt.Elem()).Underlying().(*types.Array); ok {
+				if al, ok := t.Instr.(*ssa.Alloc); ok && singleUseBuffer(al) {
+					return arr.Len(), true
+				}
+			}
+		}
+	}
 	return 0, false
+}
+
+// singleUseBuffer: the array is only sliced, and each slice is used by exactly one call (it is not shared between sites
+// nor reused across loop iterations through a variable declared outside the loop).
+func singleUseBuffer(al *ssa.Alloc) bool {
+	refs := al.Referrers()
+	if refs == nil {
+		return false
+	}
+	n := 0
+	for _, r := range *refs {
+		switch x := r.(type) {
+		case *ssa.Slice:
+			n++
+			if sr := x.Referrers(); sr == nil || len(*sr) != 1 {
+				return false
+			}
+		case *ssa.DebugRef:
+		default:
+			return false
+		}
+	}
+	// a fresh array per execution of the make(): the Alloc must sit in the same block as its slice use
+	return n == 1
 }
 
 // derefArg resolves &local(v) holding a copied element back to the element it was copied from.
